@@ -1,5 +1,6 @@
 import Comdex.Lemmas.LiqOrders
 import Comdex.Lemmas.LiqAmmBridge
+import Comdex.Lemmas.LiqIndex
 /-!
 # C07 — Every order is settled exactly: fills, refunds and swap fees add up
 
@@ -26,8 +27,17 @@ Property clause → theorem
         their placement batch are left exactly as they were)
 * "cancelling or replacing market-making orders cancels and refunds every previously placed market-making order of that
   owner in that pair — for every combination of app id and pair id"
-      → `mm_cancel_cancels_all`, `mm_replace_cancels_all` (repaired lookup, all app / pair ids),
+      → `mm_index_complete` (INDUCTIVE INVARIANT over every history — placement, fills, expiry, cancel, cancel-all, MM cancel,
+          MM replace, begin-block pruning: every live market-making order is in its owner's index for the (app, pair)) with
+          `order_keys_unique` (order keys are unique; ids never re-used),
+        `mm_cancel_cancels_all`, `mm_replace_cancels_all` (repaired lookup, all app / pair ids, reachable states, NO premise
+          about the index: after the accepted message NO market-making order of the owner in the pair is live, none has
+          disappeared, each is settled with refund = unspent offer; the replace appends the new ones),
+        `mm_cancel_cancels_indexed` (any state: every order listed in the index is ended),
         `mm_cancel_cancels_all_counterexample` (the lookup as it stands in swap.go:559: app 2 / pair 1 — defect D4)
+* (round 5) the order price, the tick grid, the price limits around the pair's last price, `MMOrderTicks` and the offer / demand
+  denom checks are part of the model (`orderPrice`, `mmTicks`, `placeOrderMsg`, `mmOrderMsg`): `placement_takes_exactly` states
+  the recorded price as `orderPrice` of the message price
 -/
 namespace Comdex.C07
 open Comdex.LiqLedger
@@ -164,10 +174,76 @@ theorem cancel_all_cancels_every_old_order {cfg : Cfg} {s s' : State} {app user 
     (¬ o.batch < pp.curBatch → s'.order? k = some o) :=
   cancelAll_all h k o pp ho hp
 
-/-- **MsgCancelMMOrder cancels every indexed order** (repaired lookup), for every app id and pair id: after a successful
-cancel, every order listed in the owner's market-making index of that pair is ended, and the index is gone.  (Each of
-them was refunded: `finish_moves_exactly`, `terminated_settled`.) -/
-theorem mm_cancel_cancels_all {cfg : Cfg} (hsw : cfg.swapLookup = false) {s s' : State} {app user pair : Nat} {idx : MMIndex}
+/-! ### index completeness as an inductive invariant, and what it gives for `MsgCancelMMOrder` / `MsgMMOrder` -/
+
+theorem reachable_idx {cfg : Cfg} (hsw : cfg.swapLookup = false) (funds : List (Nat × Nat × Nat)) (ops : List Op) :
+    IdxInv (after cfg funds ops) :=
+  runT_idx hsw ops _ (genesis_idx funds)
+
+/-- **Order keys are unique** in every reachable state: the store lookup `(appId, pairId, id)` of an order's key returns
+that very order (ids are allotted by the pair's counter and never re-used, also after begin-block pruning). -/
+theorem order_keys_unique {cfg : Cfg} (hsw : cfg.swapLookup = false) (funds : List (Nat × Nat × Nat)) (ops : List Op) :
+    ((after cfg funds ops).orders.map Order.key).Nodup ∧
+    ∀ o ∈ (after cfg funds ops).orders, (after cfg funds ops).order? o.key = some o :=
+  ⟨(reachable_idx hsw funds ops).uniq, fun _ ho => (reachable_idx hsw funds ops).lookup ho⟩
+
+/-- **Index completeness** (every history: placement, fills, expiry, cancel, cancel-all, MM cancel, MM replace, begin-block
+pruning, …): every LIVE market-making order is listed in the market-making index of its owner for its (app, pair). -/
+theorem mm_index_complete {cfg : Cfg} (hsw : cfg.swapLookup = false) (funds : List (Nat × Nat × Nat)) (ops : List Op) :
+    ∀ o ∈ (after cfg funds ops).orders, o.typ = .mm → o.status.live = true →
+      ∃ idx, findBy (isMM o.app o.pair o.owner) (after cfg funds ops).mm = some idx ∧ o.id ∈ idx.ids :=
+  (reachable_idx hsw funds ops).complete
+
+/-- **MsgCancelMMOrder cancels EVERY market-making order of the owner in the pair** (repaired lookup; every app id and pair id;
+NO premise about the index): in every reachable state, after an accepted `MsgCancelMMOrder(app, user, pair)` no order has
+disappeared, no market-making order of that owner in that (app, pair) is live any more, each of them carries its settlement
+(refund = unspent offer, `terminated_settled`'s formula), and the index entry is gone. -/
+theorem mm_cancel_cancels_all {cfg : Cfg} (hc : CfgOk cfg) (hsw : cfg.swapLookup = false) (funds : List (Nat × Nat × Nat))
+    (ops : List Op) {s' : State} {app user pair : Nat}
+    (h : step cfg (after cfg funds ops) (.cancelMM app user pair) = some s') :
+    s'.orders.map Order.key = (after cfg funds ops).orders.map Order.key ∧
+    (∀ o ∈ s'.orders, o.app = app → o.pair = pair → o.owner = user → o.typ = .mm →
+      o.status.live = false ∧ o.refunded = o.remaining ∧ o.feeFwd = 0) ∧
+    findBy (isMM app pair user) s'.mm = none := by
+  have hi := reachable_idx hsw funds ops
+  have hinv : Inv cfg s' := step_inv hc (reachable_inv hc funds ops) h
+  simp only [step] at h
+  unfold cancelMM at h
+  split at h; · cases h
+  split at h; · cases h
+  rename_i p hp
+  obtain ⟨-, -, hpi⟩ := pair?_some hp
+  obtain ⟨-, b, c⟩ := idx_cancelMMCore hsw hi h
+  rw [hpi] at b c
+  refine ⟨keys_cancelMMCore h, ?_, c⟩
+  intro o ho e1 e2 e3 ht
+  have hl := b o ho e1 e2 e3 ht
+  obtain ⟨-, -, -, hterm⟩ := hinv.ords o ho
+  obtain ⟨hr, hf⟩ := hterm hl
+  simp only [feeRes, fwdSpec, ht, if_true, Nat.sub_zero, Nat.add_zero] at hr hf
+  exact ⟨hl, hr, hf⟩
+
+/-- **MsgMMOrder (replace) cancels EVERY previous market-making order of the owner in the pair** (repaired lookup, NO premise
+about the index): the accepted message's result is `s1.orders ++ new` where `s1` holds exactly the orders that were there before
+(same keys), none of the owner's market-making orders in the pair is live in `s1`, and `new` are the freshly placed ones. -/
+theorem mm_replace_cancels_all {cfg : Cfg} (hsw : cfg.swapLookup = false) (funds : List (Nat × Nat × Nat)) (ops : List Op)
+    {s' : State} {app user pair : Nat} {maxSell minSell sellAmt maxBuy minBuy buyAmt : Nat} {lifespan : Int}
+    (h : step cfg (after cfg funds ops) (.mmOrder app user pair maxSell minSell sellAmt maxBuy minBuy buyAmt lifespan) = some s') :
+    ∃ (s1 : State) (new : List Order), s'.orders = s1.orders ++ new ∧
+      s1.orders.map Order.key = (after cfg funds ops).orders.map Order.key ∧
+      (∀ o ∈ s1.orders, o.app = app → o.pair = pair → o.owner = user → o.typ = .mm → o.status.live = false) ∧
+      (∀ o ∈ new, o.status = .notExecuted ∧ o.typ = .mm ∧ o.owner = user ∧ o.app = app ∧ o.pair = pair) := by
+  have hi := reachable_idx hsw funds ops
+  simp only [step] at h
+  obtain ⟨buys, sells, h⟩ := mmOrderMsg_core h
+  obtain ⟨p, s1, new, hp, hc1, ho, hn⟩ := mmOrder_split h
+  obtain ⟨-, -, hpi⟩ := pair?_some hp
+  obtain ⟨-, b, -⟩ := idx_cancelMMCore hsw hi hc1
+  rw [hpi] at b
+  exact ⟨s1, new, ho, keys_cancelMMCore hc1, b, hn⟩
+
+/-- the index-relative form (any state, not only reachable ones): every order listed in the owner's index is ended -/
+theorem mm_cancel_cancels_indexed {cfg : Cfg} (hsw : cfg.swapLookup = false) {s s' : State} {app user pair : Nat} {idx : MMIndex}
     (hidx : findBy (isMM app pair user) s.mm = some idx) (h : step cfg s (.cancelMM app user pair) = some s') :
     (∀ i ∈ idx.ids, ∀ o, s'.order? (app, pair, i) = some o → o.status.live = false) ∧
     findBy (isMM app pair user) s'.mm = none := by
@@ -179,41 +255,6 @@ theorem mm_cancel_cancels_all {cfg : Cfg} (hsw : cfg.swapLookup = false) {s s' :
   obtain ⟨-, -, hpi⟩ := pair?_some hp
   rw [← hpi] at hidx ⊢
   exact cancelMMCore_all hsw hidx h
-
-/-- **MsgMMOrder (replace) cancels every previously indexed order** (repaired lookup): the orders of the new message
-are appended behind a state in which every order of the old index is ended. -/
-theorem mm_replace_cancels_all {cfg : Cfg} (hsw : cfg.swapLookup = false) {s s' : State} {app user pair : Nat}
-    {maxSell minSell sellAmt maxBuy minBuy buyAmt : Nat} {lifespan : Int} {idx : MMIndex}
-    (hidx : findBy (isMM app pair user) s.mm = some idx)
-    (h : step cfg s (.mmOrder app user pair maxSell minSell sellAmt maxBuy minBuy buyAmt lifespan) = some s') :
-    ∃ (s1 : State) (new : List Order), s'.orders = s1.orders ++ new ∧
-      (∀ i ∈ idx.ids, ∀ o, s1.order? (app, pair, i) = some o → o.status.live = false) := by
-  simp only [step] at h
-  obtain ⟨buys, sells, h⟩ := mmOrderMsg_core h
-  unfold mmOrder at h
-  split at h; · cases h
-  split at h; · cases h
-  split at h; · cases h
-  split at h; · cases h
-  rename_i p hp
-  simp only [] at h
-  split at h; · cases h
-  split at h; · cases h
-  split at h; · cases h
-  split at h; · cases h
-  rename_i s1 hc1
-  split at h; · cases h
-  rename_i s2 h2
-  split at h; · cases h
-  rename_i s3 h3
-  cases h
-  obtain ⟨-, -, hpi⟩ := pair?_some hp
-  rw [← hpi] at hidx
-  refine ⟨s1, mkMMOrders p user true (s.now + lifespan) p.lastOrderId buys ++
-    mkMMOrders p user false (s.now + lifespan) (p.lastOrderId + buys.length) sells, ?_, ?_⟩
-  · show s3.orders ++ _ = s1.orders ++ _
-    rw [(State.send_fields h3).2.2.2.2.1, (State.send_fields h2).2.2.2.2.1]
-  · rw [← hpi]; exact (cancelMMCore_all hsw hidx hc1).1
 
 /-! ### Defect D4: with the lookup as it stands in swap.go:559 the claim is false for app id ≠ pair id -/
 
@@ -254,6 +295,25 @@ example :
     s.mm = [] ∧
     (s.orders.filter (fun o => o.app == 2 && o.pair == 1)).map (fun o => (o.id, o.status)) = [(1, .canceled), (2, .canceled)] ∧
     (s.orders.filter (fun o => o.app == 1 && o.pair == 2)).map (fun o => (o.id, o.owner, o.status)) = [(1, 2, .notMatched)] := by
+  decide +kernel
+
+/-- non-vacuity of `mm_index_complete` / `mm_cancel_cancels_all` / `order_keys_unique`: before the cancel both market-making
+orders of user 1 in (app 2, pair 1) are live and listed in the index, the stranger's order has the mirrored key, the message is
+accepted -/
+example :
+    let s := after (cfgD4 false) fundsD4 opsD4.dropLast
+    (s.orders.filter (fun o => o.typ == .mm && o.status.live)).map (fun o => (o.key, o.owner)) = [((2, 1, 1), 1), ((2, 1, 2), 1)] ∧
+    s.mm.map (fun x => (x.app, x.pair, x.owner, x.ids)) = [(2, 1, 1, [1, 2])] ∧
+    s.orders.map Order.key = [(2, 1, 1), (2, 1, 2), (1, 2, 1)] ∧
+    (step (cfgD4 false) s (.cancelMM 2 1 1)).isSome = true := by
+  decide +kernel
+
+/-- non-vacuity of `mm_replace_cancels_all`: a second `MsgMMOrder` in the next batch ends orders 1, 2 and places 3, 4 -/
+example :
+    ((after (cfgD4 false) fundsD4 (opsD4.dropLast ++
+        [.mmOrder 2 1 1 1200000000000000000 1200000000000000000 1000000 800000000000000000 800000000000000000 1000000 3600])).orders.filter
+      (fun o => o.app == 2)).map (fun o => (o.id, o.status)) =
+    [(1, .canceled), (2, .canceled), (3, .notExecuted), (4, .notExecuted)] := by
   decide +kernel
 
 /-- two pairs of one app; user 1 has an older sell order in pair 2 and a fresh one in pair 1; cancel-all (no pair named) ends
